@@ -52,12 +52,13 @@ type RandomCfg struct {
 }
 
 type Script struct {
-	Name   string     `json:"name"`
-	Q      int        `json:"q"`
-	L      int        `json:"l"`
-	Dgram  bool       `json:"dgram"`
-	Steps  []Step     `json:"steps"`
-	Random *RandomCfg `json:"random,omitempty"`
+	Name          string     `json:"name"`
+	Q             int        `json:"q"`
+	L             int        `json:"l"`
+	Dgram         bool       `json:"dgram"`
+	DialTimeoutMs int        `json:"dial_timeout_ms"` // PipelineOpts.DialTimeout (0 = default)
+	Steps         []Step     `json:"steps"`
+	Random        *RandomCfg `json:"random,omitempty"`
 }
 
 type Job struct {
@@ -99,6 +100,24 @@ type run struct {
 	dials   map[int]*simnet.DialOp
 	callers map[int]*caller
 	rng     *rand.Rand
+	gate    *simnet.Gate  // holds ReserveNewQuery on dialed connections (DialOkGated)
+	sent    map[int]sentQ // queries whose Write has been released (WriteRet step)
+}
+
+type sentQ struct {
+	conn    *simnet.Conn
+	payload []byte
+}
+
+// gatedConn wraps the DnsConn a dial returns: ReserveNewQuery is a rendezvous with the controller.
+type gatedConn struct {
+	transport.DnsConn
+	gate *simnet.Gate
+}
+
+func (g *gatedConn) ReserveNewQuery() (transport.ReservedExchanger, bool) {
+	g.gate.Pass()
+	return g.DnsConn.ReserveNewQuery()
 }
 
 func parseC(payload []byte) int {
@@ -192,7 +211,9 @@ func (r *run) waitDial(k int) *simnet.DialOp {
 	}
 }
 
-func (r *run) dialRet(k int, ok bool) bool {
+func (r *run) dialRet(k int, ok bool) bool { return r.dialRetG(k, ok, false) }
+
+func (r *run) dialRetG(k int, ok bool, gated bool) bool {
 	op := r.waitDial(k)
 	if op == nil {
 		return false
@@ -205,7 +226,11 @@ func (r *run) dialRet(k int, ok bool) bool {
 	r.conns[k] = conn
 	dc := transport.NewDnsConn(transport.TraditionalDnsConnOpts{WithLengthHeader: !r.sc.Dgram, MaxConcurrentQuery: r.sc.L,
 		IdleTimeout: 300 * time.Second}, conn)
-	if !op.Complete(transport.DnsConn(dc), nil) {
+	var ret transport.DnsConn = dc
+	if gated {
+		ret = &gatedConn{DnsConn: dc, gate: r.gate}
+	}
+	if !op.Complete(ret, nil) {
 		dc.Close()
 		return false
 	}
@@ -281,6 +306,28 @@ func (r *run) finish(c int) bool {
 	if cl == nil || !cl.running {
 		return true
 	}
+	if sq, ok := r.sent[c]; ok { // Write already released by a WriteRet step: hand the reply over now
+		delete(r.sent, c)
+		rep := append([]byte(nil), sq.payload...)
+		rep[2] |= 0x80
+		select {
+		case o := <-cl.done: // the call is already over (it did not wait for its reply)
+			sq.conn.Deliver(rep, stepWait, "c", c)
+			r.logEnd(cl, o)
+			return true
+		default:
+		}
+		if !sq.conn.Deliver(rep, stepWait, "c", c) {
+			return false
+		}
+		select {
+		case o := <-cl.done:
+			r.logEnd(cl, o)
+			return true
+		case <-time.After(stepWait):
+			return false
+		}
+	}
 	deadline := time.Now().Add(stepWait)
 	var w *pw
 	for w == nil && time.Now().Before(deadline) {
@@ -348,6 +395,42 @@ func (r *run) steer() (bool, string) {
 			if !r.dialRet(st.K, st.A == "DialOk") {
 				return fail("dial not pending")
 			}
+		case "DialOkGated":
+			if !r.dialRetG(st.K, true, true) {
+				return fail("dial not pending")
+			}
+		case "WaitGate": // n arrivals at the gate are expected
+			if !r.gate.WaitN(st.N, stepWait) {
+				return fail("gate arrivals not seen")
+			}
+		case "WaitGateMore": // bounded observation: does a further caller get through to the dialed connection?
+			r.gate.WaitN(st.N, time.Duration(st.K)*time.Millisecond)
+		case "ReleaseGates": // newest arrival first, one at a time; then the gate stays open
+			ps := r.gate.Pending()
+			for i := len(ps) - 1; i >= 0; i-- {
+				ps[i].Release()
+				time.Sleep(3 * time.Millisecond)
+			}
+			r.gate.Open()
+		case "WriteRet":
+			deadline := time.Now().Add(stepWait)
+			var w *pw
+			for w == nil && time.Now().Before(deadline) {
+				if w = r.findWrite(st.C); w == nil {
+					time.Sleep(100 * time.Microsecond)
+				}
+			}
+			if w == nil {
+				return fail("no pending write")
+			}
+			p := w.op.Data
+			if !r.sc.Dgram {
+				p = p[2:]
+			}
+			r.sent[st.C] = sentQ{w.conn, append([]byte(nil), p...)}
+			w.op.Complete(nil)
+		case "Sleep":
+			time.Sleep(time.Duration(st.N) * time.Millisecond)
 		case "WaitWrites":
 			r.waitWrites(st.N)
 		case "Finish":
@@ -462,8 +545,9 @@ func (r *run) markFailed(k int) bool {
 func runScript(idx int, sc *Script, seed int64) (res Result) {
 	res = Result{Idx: idx, Name: sc.Name}
 	r := &run{sc: sc, rec: simnet.NewRecorder(), conns: map[int]*simnet.Conn{}, dials: map[int]*simnet.DialOp{},
-		callers: map[int]*caller{}, rng: rand.New(rand.NewSource(seed))}
+		callers: map[int]*caller{}, rng: rand.New(rand.NewSource(seed)), sent: map[int]sentQ{}}
 	r.dialer = simnet.NewDialer(r.rec, "d")
+	r.gate = simnet.NewGate(r.rec, "reserve", false)
 	defer func() {
 		if p := recover(); p != nil {
 			res.Panic = fmt.Sprint(p)
@@ -471,7 +555,8 @@ func runScript(idx int, sc *Script, seed int64) (res Result) {
 		}
 	}()
 	r.rec.Log("reset", "q", sc.Q, "l", sc.L)
-	r.pt = transport.NewPipelineTransport(transport.PipelineOpts{DialContext: r.dial, MaxConcurrentQueryWhileDialing: sc.Q})
+	r.pt = transport.NewPipelineTransport(transport.PipelineOpts{DialContext: r.dial, MaxConcurrentQueryWhileDialing: sc.Q,
+		DialTimeout: time.Duration(sc.DialTimeoutMs) * time.Millisecond})
 	if sc.Random != nil {
 		res.Steered, res.Why = r.randomRun()
 	} else {
@@ -480,6 +565,7 @@ func runScript(idx int, sc *Script, seed int64) (res Result) {
 	res.Events = r.rec.Events()
 	// cleanup, unrecorded
 	r.rec.SetOff(true)
+	r.gate.Open()
 	for _, cl := range r.callers {
 		if cl.cancel != nil {
 			cl.cancel()
